@@ -23,3 +23,12 @@ package tar
 //@   arith int-assumed
 //@   modifies all
 //@   site[never_updates_metadata_unchecked] call:UpdateMetaUnix : false
+// the check itself: metadata is applied only to what Lstat (which does not follow links) reports
+// as a directory at that very path
+//@ func applyDeferredUpdate
+//@   prop C38
+//@   arith int
+//@   modifies all
+//@   site[only_a_directory_is_updated] call:UpdateMetaUnix : arg0 == m.path && res("call:Lstat#0", 1) == nil && res("invoke:FileInfo.IsDir#0", 0)
+//@   site[looks_at_the_same_path] call:Lstat : arg0 == m.path
+//@   site[asks_the_lstat_result] invoke:FileInfo.IsDir : arg0 == res("call:Lstat#0", 0)
